@@ -71,9 +71,13 @@ def check(prop, tier, seed, overlay=None, quiet=False, write=True, only=None):
         for h in known_hits:
             lines.append(f"KNOWN-FINDING: property={prop} {h['rule']} {h['what']}")
         code = 0
+        if ctx.rule_errors and not new:
+            raise AnalysisError(ctx.rule_errors[0][1])
         if undec and not new:
             o = undec[0]
             raise AnalysisError(f'{o.rule} undecided at {o.site}: {o.detail}')
+        for rid_, msg_ in ctx.rule_errors:
+            lines.append(f'  note: {rid_} could not be evaluated on this tree: {msg_[:200]}')
         if new:
             code = 1
             os.makedirs(os.path.join(VERIF, 'evidence', 'replay'), exist_ok=True)
